@@ -261,3 +261,27 @@ impl<T: Debug + Clone + SegtreeItem<M>, M: Debug> Segtree<T, M> {
         format!("{:?}", (0..self.n).map(|i| self.ask(i, i)).collect::<Vec<_>>())
     }
 }
+
+// Verification hooks (feature `verif`, off by default): copy a tree to branch on its state and read
+// the node array. Nothing here is compiled into a normal build.
+#[cfg(feature = "verif")]
+impl<T: Clone, M> Clone for Segtree<T, M> {
+    fn clone(&self) -> Self {
+        Self {
+            n: self.n,
+            data: self.data.clone(),
+            phantom: std::marker::PhantomData,
+        }
+    }
+}
+
+#[cfg(feature = "verif")]
+impl<T, M> Segtree<T, M> {
+    pub fn verif_nodes(&self) -> &[T] {
+        &self.data
+    }
+
+    pub fn verif_len(&self) -> usize {
+        self.n
+    }
+}
